@@ -4,7 +4,7 @@ C06 - mass, abundance and density of every nuclide are those of the embedded tab
 Exhaustive sweep of every row of mass.isotope_mass / element_mass /
 isotope_abundance and density.element_densities (re-read from the module
 *source text* by pbt/tables_c06.py), of every element and isotope not listed
-in a table, in five table configurations; plus a Hypothesis search over
+in a table, in seven table configurations; plus a Hypothesis search over
 strings in the documented uncertainty notations for util.parse_uncertainty.
 """
 from decimal import Decimal
@@ -19,7 +19,8 @@ EXHAUSTIVE = True
 EXHAUSTIVE_NOTE = ("every row of isotope_mass (2939), element_mass (84), isotope_abundance (84 elements / 289 "
                    "isotopes) and element_densities (119), every element 0..118 and every isotope the table holds, "
                    "in each of the configurations public, private-only (public never read), private created after "
-                   "public was read, a second private table, public re-read after the private tables; the "
+                   "public was read, a second private table, public re-read after the private tables, and public / a fresh "
+                   "private table after a customised private table (changed _mass/_density) was read completely; the "
                    "parse_uncertainty part is a generated search, not exhaustive")
 RULE = ("sweep: one case per (configuration, clause, Z, A) where clause is one of isotope mass+uncertainty, "
         "element weight+uncertainty, abundance, abundance sum, weighted mass vs weight, element density, isotope "
@@ -45,7 +46,8 @@ ASSUMPTIONS = [
     "(the docstring excludes exponents; the tables contain none of the others)",
 ]
 
-CONFIGS = ("public", "private-only", "private-after-public", "private-second", "public-after-private")
+CONFIGS = ("public", "private-only", "private-after-public", "private-second", "public-after-private",
+           "public-after-custom", "private-after-custom")
 
 _O = {}
 _ENV = {}
@@ -112,6 +114,30 @@ def env(config):
         t = core.PeriodicTable("c06-only")
         mass.init(t)
         density.init(t)
+    elif config in ("public-after-custom", "private-after-custom"):
+        # A private table is customised the way test/test_private.py and the customizing guide do it
+        # (assignment to _mass/_density of its own atoms) and every value of it is read first; the public
+        # table and a private table initialised afterwards must still serve the embedded entries.
+        if "public-after-custom" not in _ENV:
+            tc = core.PeriodicTable("c06-custom")
+            mass.init(tc)
+            density.init(tc)
+            for k, el in enumerate(tc):
+                if el.number and el.number % 3 == 0:
+                    el._mass = el._mass * (1.0 + 0.01 * (1 + k % 7))
+                    if el._density is not None:
+                        el._density = el._density * 1.5
+                    for iso in list(el)[::2]:
+                        iso._mass = iso._mass + 0.125
+            for el in tc:
+                _ = (el.mass, el.density, el.number_density, el.interatomic_distance,
+                     [(i.mass, i.abundance, i.density) for i in el])
+            t3 = core.PeriodicTable("c06-p3")
+            mass.init(t3)
+            density.init(t3)
+            _ENV["public-after-custom"] = pub
+            _ENV["private-after-custom"] = t3
+        return _ENV[config]
     else:
         # public is read first, then two private tables are created
         if "private-after-public" not in _ENV:
@@ -439,7 +465,8 @@ def tasks(tier):
     out = [("sweep-public", task_sweep, dict(configs=["public"])),
            ("sweep-private-only", task_sweep, dict(configs=["private-only"])),
            ("sweep-private-after-public", task_sweep,
-            dict(configs=["public", "private-after-public", "private-second", "public-after-private"]))]
+            dict(configs=["public", "private-after-public", "private-second", "public-after-private"])),
+           ("sweep-after-custom", task_sweep, dict(configs=["public-after-custom", "private-after-custom"]))]
     if tier == "quick":
         out += [("notation-a", task_notation, dict(n=2500)),
                 ("notation-b", task_notation, dict(n=2500))]
